@@ -38,9 +38,11 @@ SpecStep(r) ==
   CASE r.act = "transfer"    -> Transfer(e.S, e.a, e.b, e.amt, FALSE)
     [] r.act = "transferVia" -> Transfer(e.S, e.a, e.b, e.amt, TRUE)
     [] r.act = "transferX"   -> TransferX(e.S, e.a, e.b, e.amt)
-    [] r.act = "mint"        -> Mint(e.S, e.b, e.amt)
-    [] r.act = "burn"        -> Burn(e.S, e.a, e.amt)
-    [] r.act = "lock"        -> Lock(e.S, e.a, e.b, e.amt, e.x)
+    \* r.nd: the free-form details argument was Null; mint/burn/lock prepend a prefix with append(prefix, details...),
+    \* which FAULTs on Null (platform behaviour, found when the driver started to vary the ignored arguments)
+    [] r.act = "mint"        -> IF r.nd THEN Fault("mint", e.S, Nil, e.b, e.amt, 0) ELSE Mint(e.S, e.b, e.amt)
+    [] r.act = "burn"        -> IF r.nd THEN Fault("burn", e.S, e.a, Nil, e.amt, 0) ELSE Burn(e.S, e.a, e.amt)
+    [] r.act = "lock"        -> IF r.nd THEN Fault("lock", e.S, e.a, e.b, e.amt, e.x) ELSE Lock(e.S, e.a, e.b, e.amt, e.x)
     [] r.act = "newEpoch"    -> NewEpoch(e.S, e.x)
     [] r.act = "newEpochNM"  -> NewEpochNM(e.S, e.x)
     [] OTHER -> FALSE
